@@ -352,7 +352,9 @@ bool Parser::parseDeclarationOrFunctionDefinition_AtDeclarator(
             }
 
             case SyntaxKind::OpenBraceToken:
-                if (parseFunctionDefinition_AtOpenBrace(decl, specList, decltor, nullptr))
+                // A function definition has a single declarator.
+                if (decltorList_cur == &decltorList
+                        && parseFunctionDefinition_AtOpenBrace(decl, specList, decltor, nullptr))
                     return true;
                 [[fallthrough]];
 
@@ -362,17 +364,19 @@ bool Parser::parseDeclarationOrFunctionDefinition_AtDeclarator(
                     return false;
                 }
 
-                Backtracker BT(this);
-                ExtKR_ParameterDeclarationListSyntax* paramKRList = nullptr;
-                if (parseExtKR_ParameterDeclarationList(paramKRList)) {
-                    BT.discard();
-                    if (parseFunctionDefinition_AtOpenBrace(decl, specList, decltor, paramKRList)) {
-                        diagReporter_.delayedDiags_.clear();
-                        return true;
+                if (decltorList_cur == &decltorList) {
+                    Backtracker BT(this);
+                    ExtKR_ParameterDeclarationListSyntax* paramKRList = nullptr;
+                    if (parseExtKR_ParameterDeclarationList(paramKRList)) {
+                        BT.discard();
+                        if (parseFunctionDefinition_AtOpenBrace(decl, specList, decltor, paramKRList)) {
+                            diagReporter_.delayedDiags_.clear();
+                            return true;
+                        }
+                        return false;
                     }
-                    return false;
+                    BT.backtrack();
                 }
-                BT.backtrack();
 
                 diagReporter_.ExpectedFollowOfDeclarator();
                 return false;
